@@ -1,13 +1,25 @@
 /* C12: the repo's C sources, compiled as C.
- *  - igris/util/numconvert.c is #included (not linked) so that the static
- *    `rounders[]` table can be read out of the compiled code (op `tbl`);
+ *  - igris/util/numconvert.c is #included (not linked) so that file-static things can be looked at;
  *  - compat/libc/stdlib/strtod.c is compiled under private names so that
- *    glibc's strtod/atof (used by the oracle) are not replaced.          */
+ *    glibc's strtod/atof (used by the oracle) are not replaced.
+ *
+ * ROUND 3b (fragility): the two INTERNAL names this file mentions are optional.
+ *  - `rounders` (file-static table): the incomplete tentative definition below is completed by numconvert.c
+ *    when it still defines a `static const double rounders[...]`; when the table was renamed, removed or
+ *    replaced by a computation the tentative definition stands (one zero element) and the harness reports
+ *    `rounders-table-not-found` as a TAG - the rounding behaviour itself is probed through igris_f32toa (op `tbl`).
+ *  - `MAX_PRECISION` (internal macro): -1 when absent; the harness measures the clamp by rendering with
+ *    precision 127.                                                                                       */
 #include <stdlib.h>
+static const double rounders[];
 #include <igris/util/numconvert.c>
 
 const double *igv_rounders(void) { return rounders; }
+#ifdef MAX_PRECISION
 int igv_max_precision(void) { return MAX_PRECISION; }
+#else
+int igv_max_precision(void) { return -1; }
+#endif
 
 #define strtod igv_strtod
 #define atof igv_atof
